@@ -57,7 +57,7 @@ func runC15(c *core.Ctx) {
 			}
 		},
 	})
-	c.CasesPar("group", c.N(300, 8000), 4, func(k *core.Case) { c15Run(k) })
+	c.CasesPar("group", c.N(600, 8000), 4, func(k *core.Case) { c15Run(k) })
 }
 
 func c15Run(k *core.Case) {
